@@ -74,6 +74,9 @@ type sched struct {
 var active *sched
 var runMu realsync.Mutex
 
+// epoch counts managed runs; pooled objects do not survive from one run to the next.
+var epoch int
+
 func managed() (*sched, *thread) {
 	s := active
 	if s == nil || s.cur == nil {
@@ -116,6 +119,7 @@ func unblocked(t *thread) bool {
 func Run(bodies []func(), pick func(p PointInfo) int, trace bool, horizon int) *Result {
 	runMu.Lock()
 	defer runMu.Unlock()
+	epoch++
 	s := &sched{yield: make(chan struct{}), pick: pick, res: &Result{}, vars: map[string]*varState{}, atomics: map[string][]int{}, trace: trace}
 	for i, b := range bodies {
 		t := &thread{id: i, wake: make(chan struct{}), vc: make([]int, len(bodies))}
@@ -322,10 +326,66 @@ func Atomic(id string, kind int) {
 
 type Locker = realsync.Locker
 type Map = realsync.Map
-type Pool = realsync.Pool
 type Cond = realsync.Cond
 
 func NewCond(l Locker) *Cond { return realsync.NewCond(l) }
+
+// Pool: under the scheduler a deterministic LIFO free list (always reusing the most recently returned object
+// is one of the behaviours sync.Pool allows, and the one that exposes state left behind in pooled objects);
+// Get and Put are scheduling points and Put happens-before the Get that returns the same object.  The list
+// is emptied at the start of every managed run so that executions stay independent of each other.
+type Pool struct {
+	New func() any
+
+	real  realsync.Pool
+	items []poolItem
+	epoch int
+}
+
+type poolItem struct {
+	v  any
+	vc []int
+}
+
+func (p *Pool) Get() any {
+	_, t := managed()
+	if t == nil {
+		if v := p.real.Get(); v != nil {
+			return v
+		}
+		if p.New != nil {
+			return p.New()
+		}
+		return nil
+	}
+	Point("pool-get", fmt.Sprintf("pool %p", p))
+	if p.epoch != epoch {
+		p.items, p.epoch = nil, epoch
+	}
+	if n := len(p.items); n > 0 {
+		it := p.items[n-1]
+		p.items = p.items[:n-1]
+		join(t.vc, it.vc)
+		return it.v
+	}
+	if p.New != nil {
+		return p.New()
+	}
+	return nil
+}
+
+func (p *Pool) Put(v any) {
+	_, t := managed()
+	if t == nil {
+		p.real.Put(v)
+		return
+	}
+	Point("pool-put", fmt.Sprintf("pool %p", p))
+	if p.epoch != epoch {
+		p.items, p.epoch = nil, epoch
+	}
+	p.items = append(p.items, poolItem{v, t.release()})
+}
 
 type Mutex struct {
 	mu   realsync.Mutex
